@@ -252,7 +252,7 @@ def build(entry, ch, acc, max_faults=4, shapes=None, flavor='plain', avoid='~*:^
                 exps.append(exp)
     if envelope and ch.chance(envelope):
         for _ in range(ch.choice([1, 1, 2, 3, 5])):
-            k = envelope_fault(doc, ch)
+            k = envelope_fault(doc, ch, reencoded=len(set(avoid)) > 4)
             if k:
                 exps.append({'kind': 'env:' + k})
     return doc, exps
@@ -295,15 +295,15 @@ ENVELOPE_FAULTS = ['se-count', 'se-id', 'ge-count', 'ge-id', 'iea-count', 'iea-i
                    'se-count-alpha', 'st-id-long', 'se-count', 'st-dup', 'st-many-codes', 'st-many-codes', 'st-many-codes', 'drop-trailer', 'st-dup-far', 'gs-dup-far', 'trailer-and-neighbour', 'trailer-and-neighbour', 'envelope-extra-element', 'envelope-extra-element', 'stray-after-trailer', 'stray-after-trailer', 'spelling', 'spelling', 'spelling', 'header-cut-short', 'header-cut-short', 'count-with-components', 'count-with-components', 'empty-group', 'empty-group', 'empty-interchange', 'empty-interchange']
 
 
-def envelope_fault(doc, ch):
+def envelope_fault(doc, ch, reencoded=False):
     """Damage one envelope field after bookkeeping (no recount). -> kind or None"""
     try:
-        return _envelope_fault(doc, ch)
+        return _envelope_fault(doc, ch, reencoded)
     except (AttributeError, IndexError, ValueError):
         return None         # the chosen field no longer exists (an earlier fault removed its segment)
 
 
-def _envelope_fault(doc, ch):
+def _envelope_fault(doc, ch, reencoded=False):
     kind = ch.choice(ENVELOPE_FAULTS)
     idx = lambda sid: [i for i, s in enumerate(doc.segs) if s.id == sid]
 
@@ -410,7 +410,10 @@ def _envelope_fault(doc, ch):
         if ch.chance(.5) and len(nisa.vals) > 11:
             # ... of the other version: the acknowledgement is still the one of the last group
             if nisa.vals[11] == ['00401']:
-                nisa.vals[11], nisa.vals[10] = ['00501'], ['^']
+                # (ISA11 is rendered as the repetition separator in use; where the text is re-encoded, possibly under the basic
+                # character set, that separator is data of ISA11 and the outcome would depend on it: C12's statement excludes that)
+                if not reencoded:
+                    nisa.vals[11], nisa.vals[10] = ['00501'], ['^']
             else:
                 nisa.vals[11], nisa.vals[10] = ['00401'], ['U']
         niea.vals[0] = ['0']
